@@ -367,3 +367,47 @@ package stdlib
 //@   ensures[C13] first: (=> (and (= result.1 nil.Any) (is_known result.0)) (exists ((j Int)) (! (and (trig j) (<= 0 j) (< j n) (= result.0 (val_at args j)) (kn (val_at args j)) (> (len_int (val_at args j)) 0) (forall ((i Int)) (! (=> (and (trig i) (<= 0 i) (< i j)) (and (is_known (val_at args i)) (or (is_null (val_at args i)) (= (len_int (val_at args i)) 0)))) :pattern ((trig i))))) :pattern ((trig j)))))
 //@   ensures[C13] unknown: (=> (and (= result.1 nil.Any) (not (is_known result.0))) (and (= (vty result.0) retType) (exists ((j Int)) (! (and (trig j) (<= 0 j) (< j n) (not (is_known (val_at args j))) (forall ((i Int)) (! (=> (and (trig i) (<= 0 i) (< i j)) (and (is_known (val_at args i)) (or (is_null (val_at args i)) (= (len_int (val_at args i)) 0)))) :pattern ((trig i))))) :pattern ((trig j))))))
 //@   loop 1 invariant (forall ((j Int)) (! (=> (and (trig j) (<= 0 j) (< j $i)) (and (is_known (val_at args j)) (or (is_null (val_at args j)) (= (len_int (val_at args j)) 0)))) :pattern ((trig j))))
+//
+// ---- C13: set functions ---------------------------------------------------------------------------
+// The four set operations share one implementation (the closure returned by setOperationImpl), which
+// converts every argument to the unified set type and folds the binary operation f over them from left
+// to right: the member set of a known result is set_fold(f, args, retType, n) - every argument takes
+// part, in order. An unknown result is returned only by the operations that do not allow unknown members
+// and only when some converted argument is not wholly known. Each operation's own literal computes the
+// ValueSet method of its name. (Member sets and the operations on them are uninterpreted: DESIGN.md.)
+// Verified for unified set types without dynamic parts (requires clause): that all converted sets then
+// have the same element type - what the operations need - follows from conformance (meta-lemma M3).
+//@ func stdlib.setOperationImpl$1
+//@   tags C11 C13
+//@   let F ($at<Func> f)
+//@   let AU ($at<Bool> allowUnknowns)
+//@   let n (Slice.len args)
+//@   requires (and (slice.ok args) (>= n 1) (not (= F nil.Func)) (wf_ty retType) (is_set_ty retType) (not (has_dyn (elem_ty retType))))
+//@   requires (forall ((k Int)) (! (=> (and (<= (Slice.off args) k) (< k (+ (Slice.off args) n))) (and (wf_deep (select (vals_arr args) k)) (kn (select (vals_arr args) k)) (is_set_ty (vty (select (vals_arr args) k))) (not (deep_marked (select (vals_arr args) k))))) :pattern ((select (vals_arr args) k))))
+//@   ensures[C13] fold: (=> (and (= result.1 nil.Any) (is_known result.0)) (= (vs_of result.0) (set_fold F args retType n)))
+//@   ensures[C13] unknown: (=> (and (= result.1 nil.Any) (not (is_known result.0))) (and (not AU) (= (vty result.0) retType)))
+//@   ensures[C11] typed: (=> (and (= result.1 nil.Any) (is_known result.0)) (and (is_set_ty (vty result.0)) (plain result.0)))
+//@   loop 1 invariant (and (= (vs_abs set) (set_fold F $p.args retType (+ $i 1))) (conforms (vs_ety set) (elem_ty retType)) (not (has_opt (vs_ety set))))
+//@   calls f
+//@     requires (ty_eq (vs_ety s1) (vs_ety s2))
+//@     ensures (and (= (vs_abs result) (vs_op F (vs_abs s1) (vs_abs s2))) (= (vs_ety result) (vs_ety s1)))
+//
+//@ func stdlib.SetUnionFunc.Impl.arg0
+//@   tags C13
+//@   panics (not (ty_eq (vs_ety s1) (vs_ety s2)))
+//@   ensures[C13] op: (and (= (vs_abs result) (vs_union (vs_abs s1) (vs_abs s2))) (= (vs_ety result) (vs_ety s1)))
+//
+//@ func stdlib.SetIntersectionFunc.Impl.arg0
+//@   tags C13
+//@   panics (not (ty_eq (vs_ety s1) (vs_ety s2)))
+//@   ensures[C13] op: (and (= (vs_abs result) (vs_inter (vs_abs s1) (vs_abs s2))) (= (vs_ety result) (vs_ety s1)))
+//
+//@ func stdlib.SetSubtractFunc.Impl.arg0
+//@   tags C13
+//@   panics (not (ty_eq (vs_ety s1) (vs_ety s2)))
+//@   ensures[C13] op: (and (= (vs_abs result) (vs_minus (vs_abs s1) (vs_abs s2))) (= (vs_ety result) (vs_ety s1)))
+//
+//@ func stdlib.SetSymmetricDifferenceFunc.Impl.arg0
+//@   tags C13
+//@   panics (not (ty_eq (vs_ety s1) (vs_ety s2)))
+//@   ensures[C13] op: (and (= (vs_abs result) (vs_symdiff (vs_abs s1) (vs_abs s2))) (= (vs_ety result) (vs_ety s1)))
